@@ -184,6 +184,10 @@ fn check_case(out: &mut Out, ast: &Ast, mode: Parens, r: &mut Rng) {
         1 => crate::gen::render_with_plan(&toks, r, true).unwrap_or_else(|| render_spaced(&toks)),
         _ => render_spaced(&toks),
     };
+    check_rendered(out, ast, src, r)
+}
+
+fn check_rendered(out: &mut Out, ast: &Ast, src: String, r: &mut Rng) {
     out.begin(|| src.clone());
     let tree = match api::build(&src) {
         Built::Tree(t) => t,
@@ -428,6 +432,48 @@ impl Phase for Random {
 
 /// n-ary sequences, empty parenthesis nodes, and non-last children with grandchildren — the shapes the
 /// hand-written traversal is most likely to get wrong
+/// hexadecimal and exponent spellings directly in front of a sign and a digit (`0x1e-3`, `t=0x2E+7*n`): numbers,
+/// never identifiers
+struct SpelledNumbers {
+    n: u64,
+}
+
+impl Phase for SpelledNumbers {
+    fn name(&self) -> String {
+        "respelled-literals tight".into()
+    }
+    fn len(&self) -> u64 {
+        self.n
+    }
+    fn run(&mut self, _idx: u64, r: &mut Rng, out: &mut Out) {
+        let c = |v: RV| Ast::Const(v);
+        let lit = match r.below(3) {
+            0 => c(RV::Int(*r.pick(&[14, 30, 46, 254, 0xee, 0x1e5e, 0xe0e, 1, 255, 0xabcde]))),
+            1 => c(RV::Float(*r.pick(&[1e3, 2.5e-3, 1e22, 5e-324, 14.0]))),
+            _ => c(RV::Int((r.next() >> r.range(1, 63)) as i64)),
+        };
+        let rhs = match r.below(4) {
+            0 => Ast::Read("n".into()),
+            1 => Ast::Bin("*", Box::new(c(RV::Int(r.below(10) as i64))), Box::new(Ast::Read("n".into()))),
+            _ => c(RV::Int(r.below(10) as i64)),
+        };
+        let op = *r.pick(&["-", "+", "-", "+", "*", "%"]);
+        let mut ast = if r.chance(1, 2) { Ast::Bin(op, Box::new(lit), Box::new(rhs)) } else { Ast::Bin(op, Box::new(rhs), Box::new(lit)) };
+        if r.chance(1, 3) {
+            ast = Ast::Assign("=", "t".into(), Box::new(ast));
+        }
+        if r.chance(1, 4) {
+            ast = Ast::Call("f".into(), Box::new(ast));
+        }
+        let mut toks = render_ast(&ast, Parens::Minimal, Some(r), true);
+        for _ in 0..4 {
+            crate::gen::respell_literals(&mut toks, r);
+        }
+        let src = crate::gen::render_tight(&toks);
+        check_rendered(out, &ast, src, r);
+    }
+}
+
 fn special_asts() -> Vec<Ast> {
     let rd = |n: &str| Ast::Read(n.to_string());
     let call = |f: &str, a: Ast| Ast::Call(f.to_string(), Box::new(a));
@@ -506,6 +552,9 @@ pub fn phases(cfg: &Cfg) -> Vec<Box<dyn Phase>> {
         Box::new(Exhaustive { asts: all }),
         Box::new(Random {
             n: cfg.n(250_000, 3_000_000),
+        }),
+        Box::new(SpelledNumbers {
+            n: cfg.n(20_000, 300_000),
         }),
     ]
 }
